@@ -6,21 +6,24 @@ import (
 	apifu "github.com/ccbrown/api-fu"
 	"reflect"
 	"strings"
+	"unicode/utf8"
 
 	"verifharness/hx"
 )
 
 // Case is one replayable unit.
 type Case struct {
-	Kind       string  `json:"kind"` // direct | served | walk | codec
-	E          []int   `json:"edges"`
-	Policy     int     `json:"policy"`
-	PolicySeed uint64  `json:"policy_seed"`
-	Req        *Req    `json:"req,omitempty"`
-	Direct     *Direct `json:"direct,omitempty"`
-	Walk       *Walk   `json:"walk,omitempty"`
-	Codec      *cur    `json:"codec,omitempty"`
-	CodecAny   *AnyVal `json:"codec_any,omitempty"` // round trip of a cursor with an interface-typed component
+	Kind       string    `json:"kind"` // direct | served | walk | codec
+	E          []int     `json:"edges"`
+	Policy     int       `json:"policy"`
+	PolicySeed uint64    `json:"policy_seed"`
+	Req        *Req      `json:"req,omitempty"`
+	Direct     *Direct   `json:"direct,omitempty"`
+	Walk       *Walk     `json:"walk,omitempty"`
+	Codec      *cur      `json:"codec,omitempty"`
+	CodecAny   *AnyVal   `json:"codec_any,omitempty"` // round trip of a cursor with an interface-typed component
+	Multi      *Multi    `json:"multi,omitempty"`     // kind multi: several resolutions of one connection field in one request (multi.go)
+	Tie        *CodecTie `json:"tie,omitempty"`       // kind codectie: one codec operation, model against code (codec.go)
 }
 
 type Direct struct {
@@ -192,6 +195,10 @@ func curArgS(a *CurArg) (hx.Sexp, string) {
 	c, ok, p := decode(a.S)
 	if p != "" {
 		return hx.Sexp{}, "DeserializeCursor panicked on " + fmt.Sprintf("%q", a.S) + ": " + p
+	}
+	if activeField == "" && utf8.ValidString(a.S) {
+		// a cursor of type `cur`: the driver decodes the string itself with the codec model
+		return hx.N("s", hx.A(a.S), hx.A("model")), ""
 	}
 	if !ok {
 		return hx.N("s", hx.A(a.S), hx.A("invalid")), ""
@@ -543,6 +550,9 @@ func (h *harness) evalWalk(c Case) (what, kind string) {
 	var visited []int
 	var cur *CurArg
 	pages := 0
+	var realPages [][]int // in the order visited
+	var sent []string     // the cursor strings the client sent, in order
+	var winCalls []getterCall
 	for {
 		if pages > len(c.E)+2 {
 			return fmt.Sprintf("the walk does not terminate: %d pages over %d edges", pages, len(c.E)), "property"
@@ -567,6 +577,11 @@ func (h *harness) evalWalk(c Case) (what, kind string) {
 		}
 		if len(page) > wk.N {
 			return fmt.Sprintf("a page holds %d edges, %d were requested", len(page), wk.N), "property"
+		}
+		realPages = append(realPages, page)
+		winCalls = append(winCalls, o.WinCalls...)
+		if cur != nil {
+			sent = append(sent, cur.S)
 		}
 		if wk.Forward {
 			visited = append(visited, page...)
@@ -602,6 +617,60 @@ func (h *harness) evalWalk(c Case) (what, kind string) {
 		return fmt.Sprintf("%s walk with page size %d visited %v, the connection is %v", dir, wk.N, visited, S), "property"
 	}
 	h.run.CountN("walk-pages", pages)
+	// the walk tie: Walk.lean's client (walkForward / walkBackward, the subject of walk_exact_codec) run
+	// by the driver with the concrete codec model, against the walk just made: same pages, same
+	// cursor strings sent
+	if h.model != nil && wk.Field == "" {
+		tc := hx.A("none")
+		if wk.Mode == "window" {
+			tc = hx.I(int64(len(c.E)))
+		}
+		tbl := []hx.Sexp{}
+		seen := map[string]string{}
+		for _, gc := range winCalls {
+			k, v := hx.L(optI(gc.After), optI(gc.Before), hx.I(int64(gc.Limit))).String(), intsS(gc.Reply).String()
+			if old, ok := seen[k]; ok {
+				if old != v {
+					// the same window answered in two ways on different pages (a seeded policy): the
+					// model's getter is a function of the window — no walk tie for this walk
+					h.run.Count("walk-tie-skipped:inconsistent-getter-table")
+					return "", ""
+				}
+				continue
+			}
+			seen[k] = v
+			tbl = append(tbl, hx.L(hx.L(optI(gc.After), optI(gc.Before), hx.I(int64(gc.Limit))), intsS(gc.Reply)))
+		}
+		dir := "fwd"
+		inOrder := realPages
+		if !wk.Forward {
+			dir = "bwd"
+			inOrder = nil
+			for i := len(realPages) - 1; i >= 0; i-- {
+				inOrder = append(inOrder, realPages[i])
+			}
+		}
+		var ps, ss []hx.Sexp
+		for _, p := range inOrder {
+			ps = append(ps, intsS(p))
+		}
+		for _, x := range sent {
+			ss = append(ss, hx.A(x))
+		}
+		canon := hx.N("ok", hx.L(ps...), hx.N("sent", ss...)).String()
+		line := hx.N("walk", hx.A(dir), hx.A(wk.Mode), intsS(c.E), tc, hx.I(int64(wk.N)), hx.N("table", tbl...)).String()
+		rep, err := h.model.Ask(line)
+		if err != nil {
+			return "model driver failed: " + err.Error(), "correspondence"
+		}
+		if h.verbose {
+			fmt.Printf("walk: implementation %s\nwalk: model          %s\n", canon, rep)
+		}
+		h.run.Count("walk-tie")
+		if rep != canon {
+			return fmt.Sprintf("walk (pages in connection order, cursor strings sent): implementation %s, model %s", canon, rep), "correspondence"
+		}
+	}
 	return "", ""
 }
 
@@ -696,6 +765,16 @@ func (h *harness) eval(c Case) (what, kind string) {
 		return h.evalWalk(c)
 	case "codec":
 		return h.evalCodec(c)
+	case "multi":
+		if c.Multi == nil || len(c.Multi.Sets) == 0 || len(c.Multi.Reqs) == 0 {
+			return "multi case without resolutions", "correspondence"
+		}
+		return h.evalMulti(c)
+	case "codectie":
+		if c.Tie == nil {
+			return "codectie case without a tie", "correspondence"
+		}
+		return h.evalCodecTie(c)
 	}
 	return "unknown case kind " + c.Kind, "correspondence"
 }
@@ -720,6 +799,12 @@ func dec1(p **int) bool {
 // case still fails in the same way.
 func (h *harness) shrink(c Case, kind string) (Case, string) {
 	what, _ := h.eval(c)
+	if c.Kind == "codectie" {
+		return c, what // a single codec operation: nothing to drop
+	}
+	if c.Kind == "multi" {
+		return h.shrinkMulti(c, kind)
+	}
 	try := func(mut func(d *Case) bool) bool {
 		d := clone(c)
 		if !mut(&d) {
@@ -836,6 +921,16 @@ func nontrivial(c Case) bool {
 		return !ref.Err && !r.validationRejects() && len(ref.Edges) > 0 && len(ref.Edges) < len(c.E)
 	case "walk":
 		return len(c.E) > c.Walk.N
+	case "codectie":
+		return true
+	case "multi":
+		n := 0
+		for _, s := range c.Multi.Sets {
+			if len(s) > 0 {
+				n++
+			}
+		}
+		return n >= 2
 	}
 	return false
 }
@@ -854,9 +949,16 @@ func (h *harness) check(c Case) {
 		h.run.Oblige("correspondence: served connection field = model resolve (edges, page info, totalCount | error class, getter calls) in {all,window}×{sync,promise}", "correspondence", 1, kind != "correspondence", what)
 		h.run.Oblige("oracle: served response = RelayRef; count errors; emitted cursors accepted; arbitrary strings rejected or a position; no crash", "oracle", 1, kind != "property" && kind != "crash", what)
 	case "walk":
-		h.run.Oblige("oracle: forward/backward walks visit every edge exactly once, in order, pages ≤ n", "oracle", 1, what == "", what)
+		h.run.Oblige("oracle: forward/backward walks visit every edge exactly once, in order, pages ≤ n", "oracle", 1, what == "" || kind == "correspondence", what)
+		h.run.Oblige("correspondence: the walk = model walkForward/walkBackward with the concrete codec (pages, cursor strings sent)", "correspondence", 1, kind != "correspondence", what)
 	case "codec":
 		h.run.Oblige("oracle: Deserialize(Serialize(c)) = c, non-empty", "oracle", 1, what == "", what)
+	case "multi":
+		h.run.Oblige("correspondence: every resolution of a connection field resolved several times in one request (list of parents, aliases with a custom argument) = model resolve for its own edge set and application calls", "correspondence", 1, kind != "correspondence", what)
+		h.run.Oblige("oracle: every resolution of a connection field resolved several times in one request = RelayRef over its OWN edge set", "oracle", 1, kind != "property" && kind != "crash", what)
+	case "codectie":
+		h.run.Oblige(c.Tie.obligation(), "correspondence", 1, kind != "correspondence", what)
+		h.run.Oblige(obCodecO, "oracle", 1, kind != "property" && kind != "crash", what)
 	}
 	if what == "" {
 		return
